@@ -11,6 +11,7 @@ import json
 import os
 
 import vlib
+from checks import crdtlib
 
 KEYSETS = {
     "prefix": [["a"], ["a", "b"], ["a", "b", "c"], ["a", "c"], ["b"]],
@@ -70,6 +71,16 @@ def check(run):
               % (scn[0]["kind"], json.dumps(["/".join(k) for k in scn[0]["keys"]]), json.dumps(ops), json.dumps(scn[line - 1])),
               {"kind": "store", "scenario": {"mode": "store", "kind": scn[0]["kind"], "keys": scn[0]["keys"], "ops": ops},
                "trace": scn[:line]})
+    # the retained-message store as the broker uses it, behind the replicated state: several entries written by ONE merge (a
+    # full-state push) must each keep their own value - prefix-related topics (a, a/b) and an unrelated one (b)
+    rs = crdtlib.gen(run, "c19", "ret", [1, 2], ["k1", "k2", "k3"], crdtlib.MAPS["ret"]["vals"], 3, 3, 0, 0, [1], False)
+    for s_ in rs:
+        s_["ops"] = s_["ops"] + [{"op": "push", "from": 1, "to": 9}, {"op": "push", "from": 1, "to": 9}]
+    rtp = crdtlib.execute(run, rs, "c19")
+    rnev, rval, rrej, rts = crdtlib.validate(run, "C19", rs, rtp, v)
+    run.log("replicated retained store: %d histories, each pushed whole into a fresh node, %d rejected" % (len(rs), len(rrej)))
+    validated += rval
+    tstates += rts
     rc = v.finish()
     vlib.write_evidence(run, {
         "traces_validated_against_impl": validated,
@@ -79,6 +90,7 @@ def check(run):
                 "plus simulated sequences of depth %d, each run on topics.Store and subscriptions.Tree with key sets %s; after every "
                 "operation exact lookups of all 5 keys, Count and Iterate are compared with the map; distinct = (sequence, store, key set)"
                 % (5 if thorough else 4, 10 if thorough else 8, sorted(KEYSETS)),
+        "replicated_retained_store": {"histories": len(rs), "events": rnev, "rejections": len(rrej)},
         "events_validated": nev, "trace_spec_states": tstates, "rejections": len(rejected), "exhaustive": True,
         "samples": [scns[0], scns[len(scns) // 2], {"trace_excerpt": vlib.head_events(tpath, 5)}],
     }, ["return values of Insert/Remove (old flag, not-found error) are not part of C19 and are not constrained",
@@ -91,6 +103,8 @@ def check(run):
 
 def replay(run, path):
     rp = json.load(open(path))
+    if rp.get("kind") == "crdt" or "map" in rp.get("scenario", {}):
+        return crdtlib.replay(run, "C19", path)
     spath = os.path.join(run.scratch, "scenarios.ndjson")
     with open(spath, "w") as f:
         f.write(json.dumps(rp["scenario"]) + "\n")
